@@ -53,6 +53,8 @@ def diff(sr: SR, x: SR, _memo=None) -> SR:
         k = at.kind
         if k in ("var", "ivar", "pi", "croot", "ind", "rint", "floor"):
             r = S.ZERO()
+        elif k == "def":
+            r = total(at.data)
         elif k == "sqrt":
             dx = total(at.data)
             r = dx / (2 * SR.atom(a)) if dx.n else S.ZERO()
